@@ -57,6 +57,18 @@ def run(ck):
     ck.clause("C19.3", "row comparison is symmetric in its two arguments; coverage formula")
     cmp_fn = p.find_method("AlignmentComparer", "compare")
     a1, a2 = [V(pp.name) for pp in cmp_fn.call_params()]
+    # the private helper that turns an alignment set into its key dictionary: the one compare applies to each of its two arguments
+    # (located by that role - its name is free to change - and kept as a call, not read through)
+    import ast as _ast
+    by_callee = {}
+    for s0 in ctx.cg.sites.get(cmp_fn.qualname, []):
+        if len(s0.node.args) == 1 and not s0.node.keywords and isinstance(s0.node.args[0], _ast.Name) \
+                and s0.node.args[0].id in (a1[1], a2[1]):
+            for c0 in s0.repo_callees():
+                if c0.kind == "fn" and c0.fn.name.startswith("_"):
+                    by_callee.setdefault(c0.fn.qualname, set()).add(s0.node.args[0].id)
+    dict_fns = {q for q, names in by_callee.items() if names == {a1[1], a2[1]}}
+    ctx.keep_calls.update(dict_fns)
     _inputs_unchanged(ck, cmp_fn)
     rets_all = [pa for pa in explore(ck, cmp_fn) if pa.outcome == "return"]
     rets = [pa for pa in rets_all if pa.value[0] == "app" and pa.value[1].endswith("AlignmentComparison.create")]
@@ -83,7 +95,8 @@ def run(ck):
     # the two dictionaries
     dicts = []
     for x in T.subterms(rows):
-        if x[0] == "app" and x[3] and len(x[3]) == 1 and list(dict(x[3]).values())[0] in (a1, a2) and "Dict" in x[1]:
+        if x[0] == "app" and x[3] and len(x[3]) == 1 and list(dict(x[3]).values())[0] in (a1, a2) and \
+                ("Dict" in x[1] or x[1] in dict_fns):
             if x not in dicts:
                 dicts.append(x)
     if len(dicts) != 2 or dicts[0][1] != dicts[1][1]:
